@@ -5,6 +5,7 @@ from math import prod
 from typing import Callable, Dict, List, Optional, Tuple, Union
 
 import jax.numpy as jnp
+import numpy as np
 import pandas as pd
 
 from jaxley.modules import Module
@@ -233,6 +234,20 @@ def integrate(
         raise ValueError("No recordings are set. Please set them.")
     rec_inds = module.recordings.rec_index.to_numpy()
     rec_states = module.recordings.state.to_numpy()
+
+    # Synaptic states and currents are stored separately for every synapse type, but
+    # recordings and clamps refer to them by the global edge index. Convert the global
+    # edge index into the index within the synapse type.
+    edge_state_names = module.synapse_state_names + module.synapse_current_names
+    if len(module.edges) > 0:
+        index_within_type = module.edges.groupby("type").cumcount().to_numpy()
+        is_edge_state = np.isin(rec_states, edge_state_names)
+        rec_inds = np.where(
+            is_edge_state, index_within_type[rec_inds * is_edge_state], rec_inds
+        )
+        for key in externals.keys():
+            if key in edge_state_names:
+                external_inds[key] = index_within_type[np.asarray(external_inds[key])]
 
     # Shorten or pad stimulus depending on `t_max`.
     if t_max is not None:
